@@ -216,6 +216,7 @@ func init() {
 		bs = append(bs, m.sliceBytes(sv)...)
 		return m.bytesSlice(bs)
 	})
+	reg(rtPkg+".GoCalls", func(m *Machine, a []Value) Value { return m.mkInt(int64(len(m.GoCalls))) })
 	reg(rtPkg+".Symbolic", func(m *Machine, a []Value) Value { return smt.Bool(!m.Cfg.IsConc) })
 
 	// ----- internal/bytealg, strings, bytes -----
